@@ -26,7 +26,7 @@ from gradesim.core import load_lib, outcome, outcome2, short, digest, canon
 from gradesim.gen import problems as P
 
 REG_CLASSES = ['AbstractGrader', 'ItemGrader', 'StringGrader', 'FormulaGrader', 'NumericalGrader',
-               'MatrixGrader', 'SingleListGrader', 'IntervalGrader', 'ListGrader', 'SumGrader']
+               'MatrixGrader', 'SingleListGrader', 'IntervalGrader', 'ListGrader', 'SumGrader', 'IntegralGrader']
 
 # values an author could plausibly register course-wide (cf. plugins/defaults_sample.py)
 REG_VALUES = {
@@ -47,6 +47,7 @@ REG_VALUES = {
     'IntervalGrader': [{'partial_credit': False}],
     'ListGrader': [{'partial_credit': False}],
     'SumGrader': [{'tolerance': '1%'}],
+    'IntegralGrader': [{'tolerance': '1%'}],
 }
 
 CMP_CLASSES = ['FormulaGrader', 'NumericalGrader', 'MatrixGrader']
@@ -388,7 +389,7 @@ class TenantWorld(object):
         p5 = rates.get('F5', 0)
         if r < p5:
             pool = P.WRONG_KIND_TEXT if tp['kind'] == 'text' else P.WRONG_KIND_LIST
-            if tp['bp']['cls'] == 'SumGrader':
+            if tp['bp']['cls'] in ('SumGrader', 'IntegralGrader'):
                 pool = [5, None, ['1', 5, 'n', 'n'], {'__tuple__': ['1', '2', 'n', 'n']}]
             ev['input'], ev['icls'] = copy.deepcopy(P.pick(rng, pool)), 'wrongkind'
             ev['faults'].append({'kind': 'F5', 'what': 'wrongkind'})
@@ -1163,7 +1164,7 @@ class Run(object):
             entries = list(raw['input_list'])
             texts = [raw['overall_message']] + [e.get('msg', '') for e in entries if isinstance(e, dict)]
         else:
-            if isinstance(inp, list) and cls != 'SumGrader':
+            if isinstance(inp, list) and cls not in ('SumGrader', 'IntegralGrader'):
                 return bad('single-entry result for a list of inputs')
             entries = [raw]
             texts = [raw.get('msg', '')]
